@@ -102,7 +102,7 @@ def run(ctx):
                 else:
                     ctx.check("C10.2", nrow is None, fi, node, f"EDFA [{case}] noise rows kept", "both rows amplified", "a noise row of a two-polarisation input is cleared")
         # ---- ASE
-        randn = [r for r in it.calls if r.callee in ("numpy.random.randn", "numpy.random.standard_normal", "numpy.random.normal") and r.depth == 0]
+        randn = [r for r in it.calls if r.callee in ("numpy.random.randn", "numpy.random.standard_normal", "numpy.random.normal")]
         if len(randn) != 1:
             ctx.violation("C10.3", fi, node, f"EDFA [{case}] ASE draws", f"expected one randn(4, N) draw, found {len(randn)}")
             continue
